@@ -34,7 +34,12 @@ Init == /\ saw = FALSE /\ maxID = 0 /\ cur = 0 /\ unacked = 1 /\ ga = "none" /\ 
         /\ handler = [s \in Ids |-> "none"] /\ out = <<>> /\ started = {} /\ steps = 0
         /\ pendingES = [s \in Ids |-> FALSE]
 
-State(s) == IF inMap[s] THEN ms[s] ELSE IF s % 2 = 1 /\ s <= maxID THEN "closed" ELSE IF s % 2 = 0 THEN "idle" ELSE "idle"
+\* ms: "open" | "hcr" (half-closed remote), each also in a "...big" flavour for a stream whose request declared a content-length that the
+\* body cannot reach (kind clbig): the flavour changes nothing in the reactions, it keeps the histories apart in the state graph
+IsOpen(s) == ms[s] \in {"open", "openbig"}
+IsHcr(s) == ms[s] \in {"hcr", "hcrbig"}
+HcrOf(s) == IF ms[s] = "openbig" THEN "hcrbig" ELSE "hcr"
+State(s) == IF inMap[s] THEN (IF IsOpen(s) THEN "open" ELSE "hcr") ELSE IF s % 2 = 1 /\ s <= maxID THEN "closed" ELSE IF s % 2 = 0 THEN "idle" ELSE "idle"
 
 ConnErr(code) == /\ out' = <<<<"C", code>>>> /\ ga' = "error"
 Nop == out' = <<>>
@@ -65,11 +70,11 @@ HeadersComplete(s, es, kind) ==
        /\ UNCHANGED <<saw, maxID, unacked, ga, trailer, handler, started>>
   ELSE IF s % 2 = 0 THEN ConnErr("PE") /\ UNCHANGED <<saw, maxID, cur, unacked, inMap, ms, trailer, handler, started>>
   ELSE IF inMap[s] THEN
-       IF ms[s] = "hcr" THEN out' = <<<<"S", s, "SC">>>> /\ CloseS(s) /\ UNCHANGED <<saw, maxID, unacked, ga, trailer, handler, started>>
+       IF IsHcr(s) THEN out' = <<<<"S", s, "SC">>>> /\ CloseS(s) /\ UNCHANGED <<saw, maxID, unacked, ga, trailer, handler, started>>
        ELSE IF trailer[s] THEN ConnErr("PE") /\ UNCHANGED <<saw, maxID, cur, unacked, inMap, ms, trailer, handler, started>>
        ELSE IF ~es THEN /\ out' = <<<<"S", s, "PE">>>> /\ CloseS(s) /\ trailer' = [trailer EXCEPT ![s] = TRUE]
                         /\ UNCHANGED <<saw, maxID, unacked, ga, handler, started>>
-       ELSE /\ trailer' = [trailer EXCEPT ![s] = TRUE] /\ ms' = [ms EXCEPT ![s] = "hcr"] /\ Nop
+       ELSE /\ trailer' = [trailer EXCEPT ![s] = TRUE] /\ ms' = [ms EXCEPT ![s] = HcrOf(s)] /\ Nop
             /\ UNCHANGED <<saw, maxID, cur, unacked, ga, inMap, handler, started>>
   ELSE IF s <= maxID THEN ConnErr("PE") /\ UNCHANGED <<saw, maxID, cur, unacked, inMap, ms, trailer, handler, started>>
   ELSE IF cur + 1 > AdvMax THEN
@@ -80,7 +85,7 @@ HeadersComplete(s, es, kind) ==
        /\ maxID' = s /\ out' = <<<<"S", s, "PE">>>>
        /\ UNCHANGED <<saw, cur, unacked, ga, inMap, ms, trailer, handler, started>>
   ELSE /\ maxID' = s /\ cur' = cur + 1
-       /\ inMap' = [inMap EXCEPT ![s] = TRUE] /\ ms' = [ms EXCEPT ![s] = IF es THEN "hcr" ELSE "open"]
+       /\ inMap' = [inMap EXCEPT ![s] = TRUE] /\ ms' = [ms EXCEPT ![s] = IF kind = "clbig" THEN (IF es THEN "hcrbig" ELSE "openbig") ELSE (IF es THEN "hcr" ELSE "open")]
        /\ handler' = [handler EXCEPT ![s] = "running"] /\ started' = started \cup {s}
        /\ out' = <<<<"START", s>>>>
        /\ UNCHANGED <<saw, unacked, ga, trailer>>
@@ -97,11 +102,11 @@ Cont(s, eh, kind) ==
 
 Data(s, es) ==
   IF State(s) = "idle" THEN ConnErr("PE") /\ UNCHANGED <<saw, maxID, cur, unacked, inMap, ms, trailer, handler, started>>
-  ELSE IF ~inMap[s] \/ ms[s] # "open" \/ trailer[s] THEN
+  ELSE IF ~inMap[s] \/ ~IsOpen(s) \/ trailer[s] THEN
        /\ out' = <<<<"S", s, "SC">>>>
        /\ IF inMap[s] THEN CloseS(s) ELSE UNCHANGED <<inMap, ms, cur>>
        /\ UNCHANGED <<saw, maxID, unacked, ga, trailer, handler, started>>
-  ELSE /\ ms' = [ms EXCEPT ![s] = IF es THEN "hcr" ELSE @] /\ Nop
+  ELSE /\ ms' = [ms EXCEPT ![s] = IF es THEN HcrOf(s) ELSE @] /\ Nop
        /\ UNCHANGED <<saw, maxID, cur, unacked, ga, inMap, trailer, handler, started>>
 
 Rst(s) ==
@@ -149,14 +154,16 @@ Frame(type, s, es, eh, kind) ==
 HandlerFinish(s) ==
   /\ steps < MaxSteps /\ steps' = steps + 1
   /\ handler[s] = "running" /\ handler' = [handler EXCEPT ![s] = "done"]
-  /\ IF inMap[s] THEN CloseS(s) /\ out' = (IF ms[s] = "open" THEN <<<<"RESP", s>>, <<"S", s, "NO">>>> ELSE <<<<"RESP", s>>>>)
+  /\ IF inMap[s] THEN CloseS(s) /\ out' = (IF IsOpen(s) THEN <<<<"RESP", s>>, <<"S", s, "NO">>>> ELSE <<<<"RESP", s>>>>)
      ELSE out' = <<>> /\ UNCHANGED <<inMap, ms, cur>>
   /\ UNCHANGED <<saw, maxID, unacked, ga, hdr, trailer, started, pendingES>>
 
 \* which (type, stream, flags, kind) combinations are frames of the alphabet
 InAlphabet(type, s, es, eh, kind) ==
               /\ (type = "SETTINGS" => s = 0 /\ kind \in {"ok", "ack", "bad"} /\ es = FALSE /\ eh = FALSE)
-              /\ (type = "HEADERS" => kind \in {"ok", "malformed", "selfdep"} /\ (kind # "ok" => eh))     \* defective blocks are single-frame blocks
+              /\ (type = "HEADERS" => kind \in {"ok", "malformed", "selfdep", "clbig"} /\ (kind # "ok" => eh))     \* defective blocks are single-frame blocks
+              \* clbig: a well-formed block that declares a content-length larger than any body this alphabet sends (DATA carries 3 octets):
+              \* END_STREAM then comes "short" - the request body fails for the handler, the stream state machine is the same
               /\ (type = "CONT" => kind = "ok" /\ es = FALSE)      \* malformed blocks are exercised as single-frame blocks
               /\ (type \in {"DATA"} => kind = "ok" /\ eh = FALSE)
               /\ (type \in {"RST", "PUSH", "UNKNOWN"} => kind = "ok" /\ eh = FALSE /\ es = FALSE)
@@ -165,7 +172,7 @@ InAlphabet(type, s, es, eh, kind) ==
 ClientFrame(type, s, es, eh, kind) == InAlphabet(type, s, es, eh, kind) /\ Frame(type, s, es, eh, kind)
 
 Next == \/ \E type \in {"SETTINGS", "HEADERS", "CONT", "DATA", "RST", "WU", "PRIORITY", "PUSH", "UNKNOWN"},
-              s \in Ids \cup {0}, es \in BOOLEAN, eh \in BOOLEAN, kind \in {"ok", "ack", "bad", "malformed", "selfdep", "zero", "overflow"} :
+              s \in Ids \cup {0}, es \in BOOLEAN, eh \in BOOLEAN, kind \in {"ok", "ack", "bad", "malformed", "selfdep", "clbig", "zero", "overflow"} :
               ClientFrame(type, s, es, eh, kind)
         \/ \E s \in Ids : HandlerFinish(s)
 Spec == Init /\ [][Next]_vars
